@@ -93,7 +93,8 @@ fn env_program(rng: &mut Rng, k: u64) -> (Program, Vec<(String, Ty)>) {
 pub fn run(cx: &mut Ctx) {
     let envs = envs();
     // corpus regression inputs (programs with a witness file), shard 0
-    if cx.shard == 0 && cx.only_case.is_none() {
+    if cx.shard == 0 && cx.only_case.map_or(true, |c| c == CORPUS_CASE) {
+        cx.begin_case(CORPUS_CASE);
         for (name, text, wv) in corpus_with_witness() {
             for debug in [false, true] {
                 let Ok(built) = build(&text, &simfony::Arguments::default(), debug) else { continue };
@@ -102,6 +103,9 @@ pub fn run(cx: &mut Ctx) {
                 cx.report.count("corpus_inputs", 1);
             }
         }
+    }
+    if cx.only_case == Some(CORPUS_CASE) {
+        return;
     }
     let n: u64 = if cx.thorough { 20_000 } else { 700 };
     for i in cx.cases(n) {
